@@ -14,16 +14,20 @@ def buildFp (s : State) (length : Nat) (i : Nat) (acc : Bytes) : Nat → M (Opti
       if c == 88 then return none else buildFp s length (i + 1) (acc ++ [c]) fuel
     else return some acc
 
+/-- an empty backtick bareword in last position of a fingerprint longer than two is a comment -/
+def recatLast (s : State) (length : Nat) : M State :=
+  if length > 2 then do
+    let t ← tvGet s (length - 1)
+    if t.cat == 110 && t.strOpen == 96 && t.len == 0 && t.strClose == 0 then
+      tvSet s (length - 1) { t with cat := 99 }
+    else pure s
+  else pure s
+
 /-- `sqliFingerprint` on a fresh state -/
 def fingerprint (input : Bytes) (flags : Nat) : M State := do
   let s := sqliInit input flags
   let (length, s) ← fold s
-  let s ← (if length > 2 then do
-      let t ← tvGet s (length - 1)
-      if t.cat == 110 && t.strOpen == 96 && t.len == 0 && t.strClose == 0 then
-        tvSet s (length - 1) { t with cat := 99 }
-      else pure s
-    else pure s)
+  let s ← recatLast s length
   match ← buildFp s length 0 [] 8 with
   | none =>
     let t0 ← tvGet s 0
